@@ -105,8 +105,12 @@ CHECKS['C01'] = (
     'e_machine partition regenerated and kernel-checked against the gABI Spec; correspondence on Lean-assembled and mutated images',
     'Proof: for every well-formed description and every byte string carrying it (Layout predicate), the model of elffile.py reports exactly the description\'s '
     'observation; the model is tied by regeneration (structs, tables, machine classes) and by differential runs against the real ELFFile.',
-    'Well-formedness (Spec.ElfDesc.wf) excludes SHF_COMPRESSED sections (C02), non-UTF-8 names, and files without sections whose e_shstrndx != 0 (gABI: SHN_UNDEF). '
-    'Images with >= 0xff00 sections / >= 0xffff segments are compared with the Spec observation only (thorough tier); the escape logic is exercised against the model with forced escapes on small tables.',
+    'Two domains: wf (no SHF_COMPRESSED flag) and wfZ (flagged sections begin with a Chdr); every exactness theorem has a _z form, the harness generates both (compressed name table included) and sets '
+    'bodies shorter than a Chdr aside. get_section_index / has_section / get_section_by_name are theorems over the reader\'s own functions (last bearer wins; absent names). Names are bytes in the theorems; '
+    'the library\'s UTF-8 decoding with U+FFFD replacement is modelled (Model/Utf8.lean) and compared on every run, files with ill-formed names are set aside for the direct comparison only. '
+    'Images with >= 0xff00 sections / >= 0xffff segments run in the quick tier (run-length encoded; model compared at spot indices because List reads are quadratic). '
+    'Files with sections but e_shstrndx = SHN_UNDEF: known finding no-name-table (names read out of the ELF header); extnum_only_partial proves everything but the names for the kernel core-dump shape. '
+    'Outside the quantifier by gABI: overlap among header/tables, out-of-range or ill-typed sh_link where the constructor follows it, e_shoff = 0 with e_shstrndx != 0.',
     'DESIGN.md §6 C01')
 CHECKS['C19'] = (
     'Lean 4 theorems quantified over ALL byte strings: openElf succeeds or fails with ELFError/ELFParseError only (the model raises typeError/keyError/overflowError '
